@@ -379,6 +379,12 @@ func (l *layoutContext) finishBlockFormattingContext(rootBox_ Box) {
 		}
 		rootBox.Height = rootBox.Height.V() + maxShapeBottom - boxBottom
 	}
+	l.abortBlockFormattingContext()
+}
+
+// abortBlockFormattingContext closes the block formatting context opened by
+// createBlockFormattingContext, when the layout of its root box is given up.
+func (l *layoutContext) abortBlockFormattingContext() {
 	l.excludedShapesLists = l.excludedShapesLists[:len(l.excludedShapesLists)-1]
 	if L := len(l.excludedShapesLists); L != 0 {
 		l.excludedShapes = &l.excludedShapesLists[L-1]
